@@ -17,6 +17,7 @@ def reader(ctx, P, module=False):
     _ensure(ctx, P + "/reader-identity", lambda n: c17.rule_reader_identity(ctx, R=n))
     _ensure(ctx, P + "/reader-count", lambda n: c17.rule_count_from_strategy(ctx, R=n))
     _ensure(ctx, P + "/reader-unbuffered", lambda n: c17.rule_unbuffered(ctx, R=n))
+    _ensure(ctx, P + "/reader-whole-request", lambda n: c17.rule_whole_request(ctx, R=n))
     if module:
         _ensure(ctx, P + "/module-read-verbatim", lambda n: c14.rule_process_read_verbatim(ctx, R=n))
 
@@ -29,6 +30,7 @@ def mapping_list(ctx, P):
     _ensure(ctx, P + "/whole-map-read", lambda n: c13.rule_whole_map_read(ctx, R=n))
     _ensure(ctx, P + "/mapping-list-writers", lambda n: c04.rule_mapping_list_mutators(ctx, R=n))
     _ensure(ctx, P + "/names-compared-as-stored", lambda n: c13.rule_compare_as_stored(ctx, R=n))
+    _ensure(ctx, P + "/every-line-kept", lambda n: c13.rule_one_outcome(ctx, R=n))
 
 
 def thread_list(ctx, P):
@@ -37,6 +39,7 @@ def thread_list(ctx, P):
     from rules import c04
     _ensure(ctx, P + "/thread-list-mutators", lambda n: c04.rule_thread_list_mutators(ctx, R=n))
     _ensure(ctx, P + "/every-tid-listed", lambda n: c04.rule_every_tid_listed(ctx, R=n))
+    _ensure(ctx, P + "/one-record-per-thread", lambda n: c04.rule_one_per_thread(ctx, R=n))
 
 
 def registers(ctx, P):
